@@ -25,7 +25,8 @@ RULE = (
     "finally_action.action; 1-3 argument forms per operator) plus the creation-function callbacks (defer factory, case mapper, "
     "if_then condition, using resource/observable factories, generate condition/iterate, generate_with_relative_time "
     "condition/iterate/time_mapper incl. zero delay, from_callable supplier, start func, to_async func, on_error_resume_next "
-    "callable source, for_in mapper, from_callback mapper, partition predicate) x k in {0,1,2,last} x source family {hot, cold, sync}: "
+    "callable source, for_in mapper, from_callback mapper, partition predicate, create subscribe function, publish_value mapper, "
+    "group_by/group_by_until subject_mapper, min_by/max_by comparer) x k in {0,1,2,last} x source family {hot, cold, sync}: "
     "the slot is armed to raise a tagged exception at its k-th invocation ('last' = last invocation of an unarmed dry run). "
     "Single-invocation-per-subscription slots are wrapped in repeat() so that k>=1 means 'during a re-subscription'. "
     "Thorough additionally embeds each operator form (fixed or randomly drawn arguments) between a random prefix pipeline and a "
@@ -323,6 +324,55 @@ F("R:from_callback", "mapper", build=_b_from_callback, post=REPEAT, fams=("cold"
 F("R:partition", "predicate", build=_b_partition(False))
 F("R:partition_indexed", "predicate", build=_b_partition(True))
 
+
+# --- further in-statement callbacks of public operators that the shared table has no slot for -----------------
+
+
+def _b_publish_value(B, fam, ctx):
+    src = B.src(_spec("rep", fam))
+    return src.pipe(ops.publish_value(val("i0"), B.fn("mapper", lambda shared: shared)))
+
+
+def _b_group_subject(until):
+    def b(B, fam, ctx):
+        from reactivex.subject import Subject as _Subject
+
+        src = B.src(_spec("std", fam))
+        key = B.key("key_mapper", BIG)
+        sm = B.fn("subject_mapper", lambda: _Subject())
+        if until:
+            dur = B.inner_factory("duration_mapper", [_inner(2)])
+            return src.pipe(ops.group_by_until(key, None, lambda g: dur(g.key), sm))
+        return src.pipe(ops.group_by(key, None, sm))
+
+    return b
+
+
+def _b_extrema_cmp(name):
+    def b(B, fam, ctx):
+        src = B.src(_spec("std", fam))
+        return src.pipe(getattr(ops, name)(B.key("key_mapper", BIG), B.sub("comparer")))
+
+    return b
+
+
+def _b_create(B, fam, ctx):
+    def sub(observer, scheduler=None):
+        observer.on_next("created")
+        observer.on_completed()
+        return Disposable()
+
+    return reactivex.create(B.fn("subscribe", sub))
+
+
+F("X:publish_value", "mapper", build=_b_publish_value, post=REPEAT)
+F("X:group_by#subject", "subject_mapper", build=_b_group_subject(False))
+F("X:group_by_until#subject", "subject_mapper", build=_b_group_subject(True))
+F("X:min_by#cmp", "comparer", build=_b_extrema_cmp("min_by"))
+F("X:max_by#cmp", "comparer", build=_b_extrema_cmp("max_by"))
+F("R:create", "subscribe", build=_b_create, post=REPEAT, fams=("cold",))
+EXTRA_FORMS = ("X:publish_value", "X:group_by#subject", "X:group_by_until#subject", "X:min_by#cmp", "X:max_by#cmp", "R:create")
+
 # slots of the shared table that are deliberately not judged
 EXCLUDED_SLOTS = {("finally_action", "action")}
 
@@ -504,6 +554,8 @@ def _run(case):
     cls = [f"fam:{case['fam']}", f"k:{k}"]
     if case["form"] in SIDE_EFFECT_FORMS:
         cls.append("side-effect-slot")
+    if case["form"] in EXTRA_FORMS:
+        cls.append("extra-form-outside-table")
     embedded = case.get("pre") is not None or bool(case.get("suf")) or case.get("args") is not None
     if k == "last":
         lab0, p0, tslot, _, exc0 = _execute(case, None)
